@@ -1,5 +1,5 @@
 """C02 — the RP66V1 index gives random access identical to the sequential read (RP66V1/core/pFile.py, pIndex.py)."""
-import hashlib, io, json, types
+import hashlib, io, json, os, pickle, types
 
 from gen import rp66
 
@@ -13,7 +13,11 @@ CLAIM = {
           'touched_subset (every read of a fetch lies inside the visible records holding the record), positions_encode '
           '(the position scan of a conformant file yields exactly the entries that follow from the layout), positions_count '
           '(one entry per record) and positions_entry (entry k carries the positions at which get_slice / touched_subset '
-          'fetch, the attribute byte of the first segment, the record type and the summed body length). Every run ties the '
+          'fetch, the attribute byte of the first segment, the record type and the summed body length); for the index OBJECT: '
+          'obj_history_pure (any history of enter / exit / re-enter / fetch / pickle round trip / re-scan / sequential '
+          'iteration on one or two index objects sharing a file object answers as a state-free run: a function of the '
+          'bytes alone), reindex_pure, obj_entries_good, reindex_encode (every enter in every history of a conformant '
+          'file yields one entry per record). Every run ties the '
           'model to the source: files from the Lean spec encoder, LogicalRecordIndex on a read-counting BytesIO, histories '
           'of 20-200 fetches on ONE index object (repetitions, permutations, runs, reversed order) over an offset/length '
           'grid (segment boundaries +-1, beyond the end, negative lengths), plus a malformed stream. Proof is the right '
@@ -30,11 +34,17 @@ RULE = ('files: random storage unit label + 1..12 records (payload 0..3 visible 
         'given to the encoder, every read inside one of the visible records holding the record; per file: index entries == '
         'positions/type/kind/length implied by the layout, full fetches == sequential read. A fetch is non-trivial when '
         'the record has >= 2 segments or the slice is a proper sub-range; distinct by (SHA-1 of the file, k, offset, '
-        'length). Malformed files / bogus positions are correspondence only.')
+        'length). Object histories: per file 12..70 operations (E enter, X exit, F fetch, S re-scan, I sequential read, P '
+        'pickle round trip on a path-based index) on index objects A and B over one file object; after EVERY step every '
+        'entered index must hold exactly one entry per record with the layout positions; distinct by (file, operation sequence). '
+        'Malformed files / bogus positions are correspondence only.')
 ASSUMPTIONS = ['io.BytesIO read/seek/tell are modelled as list drop/take with an explicit cursor',
                'the F5 fix is present in get_file_logical_data (index_to = index_from + (length - bytes_read))',
                'a file holds at least one logical record (records >= 1)']
-TRUSTED = ['modelled, not verified: io.BytesIO.read/seek/tell; Python slicing by[a:b] (transcribed as pySlice)']
+TRUSTED = ['modelled, not verified: io.BytesIO.read/seek/tell; Python slicing by[a:b] (transcribed as pySlice); pickle '
+           '(an index survives a round trip as its entries list + a fresh, un-entered FileRead)']
+ANCHOR_FILES = ['src/TotalDepth/RP66V1/core/pFile.py', 'src/TotalDepth/RP66V1/core/pIndex.py',
+                'src/TotalDepth/RP66V1/core/File.py', 'src/TotalDepth/RP66V1/core/Index.py']
 
 
 class NonTerminating(Exception):
@@ -306,6 +316,170 @@ def stage(ctx, cases):
     return done
 
 
+
+# ------------------------------------------------------------------ object-level histories (enter / exit / re-enter / pickle)
+
+def index_oracle(es, records, tab):
+    """implementation alone: one entry per record, each with the positions / type / kind / length the layout implies"""
+    if len(es) != len(records):
+        return f'{len(es)} index entries for {len(records)} logical records'
+    for k, (e, (eflr, typ, _), t) in enumerate(zip(es, records, tab)):
+        got = (e.description.lr_type, e.description.attributes.is_eflr, e.position.vr_position, e.position.lrsh_position, e.description.ld_length)
+        want = (typ, eflr, t['vr_pos'], t['lrsh_pos'], sum(x[2] for x in t['segs']))
+        if got != want:
+            return f'index entry {k}: (type, is_eflr, vr_pos, lrsh_pos, ld_length) = {got}, written {want}'
+    return None
+
+
+def gen_ops(rng, records, layout, n, path_based):
+    """a history of operations on index objects A (and B, sharing A's file object): E enter, X exit, F fetch, S re-scan and
+    I sequential iteration on the same FileRead, P pickle round trip (path based only).  Kept inside what the classes
+    support: a path-based reader is not re-entered after exit (that raises ValueError: seek of closed file)."""
+    cuts = {k: cuts_of(ds) for k, ds in enumerate(layout)}
+    ent = {'A': False, 'B': False}; ops = []
+    objs = ['A'] if path_based else ['A', 'A', 'B']
+    while len(ops) < n:
+        o = rng.choice(objs); r = rng.random()
+        if not ent[o]:
+            if r < 0.7: ops.append((o, 'E')); ent[o] = True
+            elif r < 0.8: ops.append((o, 'F', rng.randrange(len(records)), 0, -1))             # IndexError / AttributeError
+            elif r < 0.85 and not path_based: ops.append((o, 'X'))
+            elif r < 0.9: ops.append((o, rng.choice('SI')))
+            continue
+        if r < 0.55:
+            k = rng.randrange(len(records)); off, ln = gen_slice(rng, len(records[k][2]), cuts[k])
+            ops.append((o, 'F', k, max(off, 0), ln))
+        elif r < 0.67: ops.append((o, 'E'))                                                   # enter again without exit
+        elif r < 0.80 and not path_based: ops.append((o, 'X')); ent[o] = False
+        elif r < 0.80 and path_based: ops.append((o, 'P')); ent[o] = False
+        elif r < 0.90: ops.append((o, 'S'))
+        else: ops.append((o, 'I'))
+    return ops
+
+
+def ops_request(ops):
+    return ';'.join(f'{o[0]}:{o[1]}' + (','.join(map(str, o[2:])) if o[1] == 'F' else '') for o in ops)
+
+
+def play_obj(sul, records, layout, ops, b=None, path=None):
+    """run the history on the implementation; returns ([canonical string per op], [(i, detail)] oracle failures).
+    Oracle (implementation alone) after EVERY step: every entered index object has exactly the entries the layout
+    implies; every fetch is the payload slice; a re-scan / sequential read gives the entries / records written."""
+    File, Index = _impl()
+    b = rp66.encode_rp66(sul, records, layout) if b is None else b
+    tab = rp66.segment_table(records, layout)
+    if path is not None:
+        with open(path, 'wb') as fh: fh.write(b)
+    f = None if path is not None else CountIO(b)
+    src = path if path is not None else f
+    idx = {'A': Index.LogicalRecordIndex(src), 'B': Index.LogicalRecordIndex(src)}
+    ent = {'A': False, 'B': False}; outs = []; bad = []
+    for i, op in enumerate(ops):
+        o, c = op[0], op[1]; x = idx[o]; d = None
+        try:
+            if c == 'E':
+                x.__enter__(); ent[o] = True; s = 'ok ' + ents(x.lr_pos_desc)
+            elif c == 'X':
+                x.__exit__(None, None, None); ent[o] = False; s = 'ok'
+            elif c == 'P':
+                y = pickle.loads(pickle.dumps(x))
+                if ent[o]: x.__exit__(None, None, None)
+                idx[o] = y; ent[o] = False; s = 'ok'
+            elif c == 'S':
+                s = 'ok ' + ents(list(x.rp66v1_file.iter_logical_record_positions()))
+                if ent[o]: d = index_oracle(list(x.rp66v1_file.iter_logical_record_positions()), records, tab)
+            elif c == 'I':
+                got = [(r.lr_is_eflr, r.lr_type, r.logical_data.bytes) for r in x.rp66v1_file.iter_logical_records()]
+                s = 'ok ' + (';'.join(f"{'E' if e else 'I'},{t},{hx(p)}" for e, t, p in got) or '-')
+                if ent[o] and got != list(records): d = f'sequential read on the indexed reader gave {len(got)} records, written {len(records)}'
+            else:
+                k, off, ln = op[2:]
+                if f is not None:
+                    s, got, err, reads = fetch_canon(f, lambda: x.get_file_logical_data(k, off, ln))
+                else:
+                    try: got, err, reads = x.get_file_logical_data(k, off, ln).logical_data.bytes, None, []
+                    except Exception as e: got, err = None, type(e).__name__
+                    s = f'ok {hx(got)}' if err is None else 'err:' + err
+                if ent[o]: d = oracle_fetch(records[k][2], tab[k]['vrs'], off, ln, got, err, reads if f is not None else [])
+        except Exception as e:
+            s = 'err:' + type(e).__name__
+            if c in 'EXP' or ent[o]: d = f'{c} on index object {o} raised {e!r}'
+        outs.append(s)
+        if d is None:
+            for n_, y in idx.items():
+                if ent[n_]:
+                    d = index_oracle(y.lr_pos_desc, records, tab)
+                    if d: d = f'index object {n_} after step {i} ({ops_request([op])}): {d}'; break
+        if d: bad.append((i, f'step #{i} {ops_request([op])}: {d}')); break
+    for n_, y in idx.items():
+        try:
+            if ent[n_]: y.__exit__(None, None, None)
+        except Exception: pass
+    return outs, bad
+
+
+def obj_case(sul, records, layout, ops, path_based):
+    return dict(mk_case(sul, records, layout, []), op='object', ops=[list(o) for o in ops], path_based=path_based)
+
+
+def shrink_obj(ctx, sul, records, layout, ops, path_based, i, detail):
+    """bounded: history up to the failing step, then greedily without each earlier operation, then the first record only"""
+    path = os.path.join(ctx.scratch, 'shrink.dlis') if path_based else None
+    fails = lambda recs, lay, os_: (play_obj(sul, recs, lay, os_, path=path)[1] or [None])[0]
+    ops = list(ops[:i + 1]); j = 0; tries = 0
+    while j < len(ops) - 1 and tries < 80:
+        cand = ops[:j] + ops[j + 1:]; tries += 1
+        r = fails(records, layout, cand)
+        if r: ops, detail = cand, r[1]
+        else: j += 1
+    one = [(o[0], o[1], 0, o[3], o[4]) if o[1] == 'F' else o for o in ops]
+    lay1 = repack(layout[:1])
+    if rp66.conformant(records[:1], lay1):
+        r = fails(records[:1], lay1, one)
+        if r: records, layout, ops, detail = records[:1], lay1, one, r[1]
+    return obj_case(sul, records, layout, ops, path_based), detail
+
+
+def stage_obj(ctx, n_mem, n_path):
+    """object-level histories: correspondence with the model's `obj` run + the oracle after every step"""
+    rng = ctx.rng; req = []; done = []
+    for j in range(n_mem + n_path):
+        path_based = j >= n_mem
+        sul, recs, lay = gen_file(rng)
+        while sum(4 * (d['vr'] is not None) + rp66.seg_len(d) for ds in lay for d in ds) > 3000:
+            sul, recs, lay = gen_file(rng)
+        ops = gen_ops(rng, recs, lay, rng.randint(12, 70), path_based)
+        b = rp66.encode_rp66(sul, recs, lay)
+        outs, bad = play_obj(sul, recs, lay, ops, b, os.path.join(ctx.scratch, 'obj.dlis') if path_based else None)
+        ctx.count('oracle_cases', len(outs)); ctx.count('object_histories'); ctx.count('object_ops', len(outs))
+        for o in ops[:len(outs)]: ctx.count('obj_op_' + o[1])
+        seen = set()
+        for o in ops[:len(outs)]:
+            if o[1] == 'E':
+                if o[0] in seen: ctx.count('obj_reenter')
+                seen.add(o[0])
+        if bad:
+            if ctx.stats['oracle_failures'] < 6:
+                case, detail = shrink_obj(ctx, sul, recs, lay, ops, path_based, *bad[0])
+            else:
+                case, detail = obj_case(sul, recs, lay, ops[:bad[0][0] + 1], path_based), bad[0][1]
+            ctx.fail(case, detail)
+        else:
+            ctx.nontriv(('object', sha(b), ops_request(ops)))
+        req.append('obj ' + b.hex() + ' ' + ops_request(ops[:len(outs)]))
+        done.append((sul, recs, lay, ops, path_based, outs))
+    for (sul, recs, lay, ops, path_based, outs), m in zip(done, ctx.lean(req)):
+        ms = m.split('|')
+        if len(ms) != len(outs): ms = ms + ['(missing)'] * (len(outs) - len(ms))
+        for i, (o, mm, op) in enumerate(zip(outs, ms, ops)):
+            if op[1] == 'F':
+                mm = canon_model(mm)
+                if path_based and mm.startswith('ok '): mm = ' '.join(mm.split(' ')[:2])      # no read counting on a real file
+            ctx.corr('object', None if o == mm else obj_case(sul, recs, lay, ops[:i + 1], path_based), o, mm)
+    if done:
+        sul, recs, lay, ops, path_based, outs = done[0]
+        ctx.sample({'op': 'object', 'ops': ops_request(ops[:12]), 'results': [o[:60] for o in outs[:12]], 'records': len(recs)})
+
 # ------------------------------------------------------------------ malformed stream (correspondence only)
 
 def damaged(rng, b, tab):
@@ -438,6 +612,7 @@ def run(ctx):
                 ctx.sample({'op': 'fetch', 'file': b.hex(), 'index': e, 'record': hist[i][0], 'segments': len(lay[hist[i][0]]),
                             'offset': hist[i][1], 'length': hist[i][2], 'position_in_history': i, 'result_and_bytes_read': outs[i]})
                 shown += 1
+    stage_obj(ctx, ctx.n(160, 1600), ctx.n(50, 500))
     malformed(ctx, ctx.n(25, 250))
     if ctx.tier == 'thorough':
         grid = gen_grid(ctx, 300)
@@ -449,6 +624,13 @@ def run(ctx):
 
 def replay(ctx, rec):
     case = rec.get('case') or {}
+    if case.get('op') == 'object' and case.get('records'):
+        sul, recs, lay, _ = un_case(case)
+        ops = [tuple(o) for o in case['ops']]
+        outs, bad = play_obj(sul, recs, lay, ops, path=os.path.join(ctx.scratch, 'replay.dlis') if case.get('path_based') else None)
+        if bad:
+            return False, bad[0][1]
+        return True, f'{len(ops)} operation(s) {ops_request(ops)}: every entered index has one entry per record, fetches equal the payload slices'
     if case.get('op') != 'fetch' or not case.get('records'):
         return True, 'nothing to replay (no concrete failing input was recorded)'
     sul, recs, lay, hist = un_case(case)
@@ -464,3 +646,9 @@ def search(ctx):
         b = rp66.encode_rp66(sul, recs, lay)
         report(ctx, sul, recs, lay, hist, play(sul, recs, lay, hist, b)[2], len(b))
         ctx.count('oracle_cases', len(hist) + 2); ctx.count('search_files')
+    for j in range(ctx.n(1500, 3000)):
+        sul, recs, lay = gen_file(ctx.rng); pb = j % 4 == 0
+        ops = gen_ops(ctx.rng, recs, lay, ctx.rng.randint(12, 70), pb)
+        outs, bad = play_obj(sul, recs, lay, ops, path=os.path.join(ctx.scratch, 'search.dlis') if pb else None)
+        ctx.count('oracle_cases', len(outs))
+        if bad: ctx.fail(*shrink_obj(ctx, sul, recs, lay, ops, pb, *bad[0]))
